@@ -1161,6 +1161,20 @@ def contract_call(eng, st, target, args, kwargs, node):
             ns.assume(*facts)
         cs2.env["yielded"] = res
         cs2.env["result"] = res
+    elif c.mode == "first":
+        # a generator known through its first item only: an item sequence of unknown length whose emptiness and first
+        # element are described by the contract (`found`, `first`); nothing is known about later items
+        ety = parse_type(c.yields or "int")
+        if ety == "int":
+            res = VSeq(fresh("yielded", ISq), "ilist")
+            n_, first_ = IS.len(res.t), VInt(IS.at(res.t, z3.IntVal(0)))
+        else:
+            res, facts = sym_value("yielded", ("list", ety))
+            ns.assume(*facts)
+            n_, first_ = VS.len(res.t), unbox(VS.at(res.t, z3.IntVal(0)), ety)
+        cs2.env["found"] = VBool(n_ > 0)
+        cs2.env["first"] = first_
+        cs2.env["result"] = first_
     else:
         rty = parse_type(c.returns or "none")
         res, facts = make_result(eng, ns, rty)
